@@ -9,6 +9,7 @@ import (
 	"net"
 	"os"
 	"path/filepath"
+	"reflect"
 	"sync"
 	"sync/atomic"
 	"time"
@@ -132,13 +133,25 @@ var (
 	bootErr  error
 )
 
-func freePort() (int, error) {
-	l, err := net.Listen("tcp", "127.0.0.1:0")
-	if err != nil {
-		return 0, err
+// freePorts probes n distinct free localhost ports (all probes are held open together, so the
+// kernel cannot hand out the same port twice).
+func freePorts(n int) ([]int, error) {
+	var ls []net.Listener
+	defer func() {
+		for _, l := range ls {
+			l.Close()
+		}
+	}()
+	var ports []int
+	for i := 0; i < n; i++ {
+		l, err := net.Listen("tcp", "127.0.0.1:0")
+		if err != nil {
+			return nil, err
+		}
+		ls = append(ls, l)
+		ports = append(ports, l.Addr().(*net.TCPAddr).Port)
 	}
-	defer l.Close()
-	return l.Addr().(*net.TCPAddr).Port, nil
+	return ports, nil
 }
 
 // Boot boots the node once per process (node boot is expensive) and returns it.
@@ -164,14 +177,11 @@ func boot(scratch string) (*Node, error) {
 	if err := os.MkdirAll(cfgDir, 0o755); err != nil {
 		return nil, err
 	}
-	nodePort, err := freePort()
+	ports, err := freePorts(2)
 	if err != nil {
 		return nil, err
 	}
-	cliPort, err := freePort()
-	if err != nil {
-		return nil, err
-	}
+	nodePort, cliPort := ports[0], ports[1]
 	n := &Node{Addr: fmt.Sprintf("127.0.0.1:%d", cliPort), svcs: map[string]*Svc{}, clock: clockStart,
 		nextSent: SentinelLo, bsTab: map[int64]*backHandle{}}
 	cluster := "---\nEnable: false\nNodeCtrl: false\nName: e2e\nETCDServer: 127.0.0.1:1\nToken: x\n"
@@ -239,6 +249,7 @@ services:
 	}
 	// wait until every service processed its start command and the acceptor listens
 	deadline := time.Now().Add(15 * time.Second)
+	var readyAt time.Time
 	for {
 		ready := true
 		n.mu.Lock()
@@ -255,10 +266,16 @@ services:
 			}
 		}
 		if ready {
+			if readyAt.IsZero() {
+				readyAt = time.Now()
+			}
 			c, err := net.DialTimeout("tcp", n.Addr, 200*time.Millisecond)
 			if err == nil {
 				c.Close()
 				break
+			}
+			if time.Since(readyAt) > 2*time.Second {
+				break // the acceptor never came up on this port: handled below
 			}
 		}
 		if time.Now().After(deadline) {
@@ -267,6 +284,44 @@ services:
 		time.Sleep(5 * time.Millisecond)
 	}
 	// the probe connection above created (and closed) a session; let it settle
+	if err := n.Settle(); err != nil {
+		return nil, err
+	}
+	// make sure the listener behind Addr really is gate-1's acceptor (the port could have been
+	// taken by another process between the probe and the acceptor's Listen, which only logs);
+	// if it is not, start a second acceptor of the same front on a fresh port
+	for attempt := 0; ; attempt++ {
+		if cl, err := Dial(n.Addr); err == nil {
+			err = n.Sentinel(cl)
+			ok := err == nil && cl.NetId != 0
+			cl.Close()
+			if ok {
+				break
+			}
+		}
+		if attempt >= 3 {
+			return nil, errors.New("e2e: no working client acceptor")
+		}
+		ps, err := freePorts(1)
+		if err != nil {
+			return nil, err
+		}
+		addr := fmt.Sprintf("127.0.0.1:%d", ps[0])
+		f := n.Front()
+		if err := f.Exec(func() {
+			sc, _ := f.GetComponent("sessions").(*impls.SessionsComponent)
+			if sc == nil {
+				return
+			}
+			tcp := pomelo.NewTCPComponent(sc.GetSessions())
+			f.AddComponent(fmt.Sprintf("tcp-retry-%d", attempt), tcp)
+			tcp.Start(addr)
+		}); err != nil {
+			return nil, err
+		}
+		n.Addr = addr
+		time.Sleep(50 * time.Millisecond)
+	}
 	if err := n.Settle(); err != nil {
 		return nil, err
 	}
@@ -452,4 +507,53 @@ func (n *Node) BusyFront(d time.Duration) {
 		time.Sleep(d)
 	})
 	<-started
+}
+
+// SendQueueLen reads len/cap of the outbound queue (ClientSession.chSend) of a connection by
+// reflection; ok is false when the session is gone.  Safe from any goroutine (channel length).
+func (n *Node) SendQueueLen(sess any) (l, c int, ok bool) {
+	v := reflect.ValueOf(sess)
+	if v.Kind() != reflect.Ptr || v.IsNil() {
+		return 0, 0, false
+	}
+	f := v.Elem().FieldByName("chSend")
+	if !f.IsValid() || f.Kind() != reflect.Chan {
+		return 0, 0, false
+	}
+	return f.Len(), f.Cap(), true
+}
+
+// ClientSessionOf returns the pomelonet session object of a connection id (nil if unknown).
+func (n *Node) ClientSessionOf(id uint32) (any, error) {
+	f := n.Front()
+	var out any
+	err := f.Exec(func() {
+		sc, _ := f.GetComponent("sessions").(*impls.SessionsComponent)
+		if sc == nil {
+			return
+		}
+		if fs := sc.GetSessions().GetSession(id); fs != nil {
+			out = fs.Session
+		}
+	})
+	return out, err
+}
+
+// WatchSendQueue samples the outbound queue of a connection until stop is closed and returns
+// the largest length seen and the capacity.
+func (n *Node) WatchSendQueue(sess any, stop <-chan struct{}) (max, capacity int) {
+	for {
+		l, c, ok := n.SendQueueLen(sess)
+		if ok {
+			capacity = c
+			if l > max {
+				max = l
+			}
+		}
+		select {
+		case <-stop:
+			return
+		case <-time.After(200 * time.Microsecond):
+		}
+	}
 }
